@@ -17,7 +17,8 @@ META = {
              "distinct by JSON; non-trivial when some register is written >= 2 times with >= 1 "
              "indexed write (shots), or when shots differ in register sets/lengths (results)"),
     "required": ["monitor:shot-bits", "monitor:shot-object-reused", "monitor:bitstrings", "monitor:counts", "monitor:collated",
-                 "expect:ValueError", "expect:value"],
+                 "expect:ValueError", "expect:value", "monitor:as_dict", "monitor:ctor-iterables", "monitor:zero-shots",
+                 "monitor:result-object-changed", "monitor:collated-shots"],
     "reach": ["hugr.qsystem.result:QsysShot.to_register_bits",
               "hugr.qsystem.result:QsysResult.register_bitstrings",
               "hugr.qsystem.result:QsysResult.collated_counts"],
@@ -32,7 +33,9 @@ PAT = re.compile(r"([a-z][\w_]*)\[(\d+)\]")
 TAGS = ["a", "b", "a[0]", "a[1]", "a[3]", "b[2]", "c_1[0]", "A[0]", "a[x]", "a[1]x", "a[01]",
         "aB9_[2]", "b[0]", "[1]", "a[-1]", "a [1]",
         # word characters and digits are not only the ASCII ones
-        "aé[1]", "aé", "bψ_[0]", "a[٣]", "größe[2]", "a[1٢]"]
+        "aé[1]", "aé", "bψ_[0]", "a[٣]", "größe[2]", "a[1٢]",
+        # first characters other than a lower-case letter, empty / double / two-digit indices
+        "_a[0]", "9a[1]", "a[]", "a[1][2]", "a[10]", "b[12]", "Ab[0]", "a_[0]", "a9[1]"]
 BITS = [0, 1, True, False]
 NONBITS = [2, -1, 0.5, "1", None, [0, 2], [[0]], "0", 3, [1, "1"], [None]]
 
@@ -135,6 +138,26 @@ def check_shot(ctx, entries, stratum="shot"):
         bad = [s for s in obs[1].values() if set(s) - {"0", "1"} or not isinstance(s, str)]
         if bad:
             ctx.disc(None, "non-bit-character", "shot", "only 0/1", bad, stratum=stratum, case=entries)
+    # the documented dictionary view: per tag the LAST value written
+    ctx.count("monitor:as_dict")
+    wantd = {}
+    for t, v in ents:
+        wantd[t] = v
+    gotd = QsysShot(ents).as_dict()
+    if gotd != wantd or [type(x) for x in gotd.values()] != [type(x) for x in wantd.values()]:
+        ctx.disc(None, "as_dict", "shot", wantd, gotd, stratum=stratum, case=entries)
+    # the constructor takes any iterable and keeps its own list: a tuple, a one-shot generator, and a list the
+    # caller goes on editing afterwards all give the shot the entries they held at construction
+    ctx.count("monitor:ctor-iterables")
+    mine = list(ents)
+    for how, shx in (("tuple", QsysShot(tuple(ents))), ("generator", QsysShot(e for e in ents)),
+                     ("list-edited-later", QsysShot(mine))):
+        if how == "list-edited-later":
+            mine.append(("zz_late", 1))
+            mine.reverse()
+        gotx = outcome(shx.to_register_bits)
+        if gotx != exp:
+            ctx.disc(None, "ctor-iterable", how, exp, gotx, stratum=stratum, case=entries)
     # append() route must agree with the constructor route
     sh = QsysShot()
     for t, v in ents:
@@ -236,6 +259,36 @@ def check_result(ctx, case, stratum="result"):
     obsd = outcome(lambda: mk().register_bitstrings())
     if expd != obsd:
         ctx.disc(None, "register_bitstrings-default", "defaults", expd, obsd, stratum=stratum, case=case)
+    expcd = ("value", {k: Counter(v) for k, v in expd[1].items()}) if expd[0] == "value" else expd
+    obscd = outcome(lambda: mk().register_counts())
+    if expcd != obscd:
+        ctx.disc(None, "register_counts-default", "defaults", expcd, obscd, stratum=stratum, case=case)
+    # the constructor takes any iterable of shots / entry iterables
+    obsg = outcome(lambda: QsysResult(tuple(s) for s in shots).register_bitstrings(strict_names=sn, strict_lengths=sl))
+    if obsg != exp:
+        ctx.disc(None, "register_bitstrings[generator of tuples]", {"strict_names": sn, "strict_lengths": sl}, exp, obsg,
+                 stratum=stratum, case=case)
+    # ONE result object asked, CHANGED (a shot appended / the first shot's entries replaced) and asked again: every
+    # answer is about the shots it holds now
+    if shots:
+        ctx.count("monitor:result-object-changed")
+        R2 = mk()
+        outcome(lambda: R2.register_bitstrings(strict_names=sn, strict_lengths=sl))
+        outcome(lambda: R2.register_counts())
+        extra = [("a", 1), ("zz_new[2]", True)]
+        R2.results.append(QsysShot(extra))
+        R2.results[0].entries[:] = list(reversed(shots[0]))
+        shots2 = [list(reversed(shots[0])), *shots[1:], extra]
+        want2 = outcome(lambda: model_bitstrings(shots2, sn, sl))
+        got2 = outcome(lambda: R2.register_bitstrings(strict_names=sn, strict_lengths=sl))
+        if got2 != want2:
+            ctx.disc(None, "result-object-changed", {"strict_names": sn, "strict_lengths": sl}, want2, got2,
+                     stratum=stratum, case=case)
+        want2c = outcome(lambda: Counter(model_collate(s2) for s2 in shots2))
+        got2c = outcome(lambda: Counter(frozenset(k) for k in R2.collated_counts().elements()))
+        if all(not isinstance(v, list) or all(not isinstance(x, list) for x in v) for s2 in shots2 for _, v in s2) \
+                and got2c != want2c:
+            ctx.disc(None, "result-object-changed[collated]", "collated_counts", want2c, got2c, stratum=stratum, case=case)
     # ONE result object asked several times, with changing options: every answer as from a fresh object
     R = mk()
     ctx.count("monitor:result-object-reused")
@@ -255,17 +308,56 @@ def check_collated(ctx, case, stratum="collate"):
     ctx.count("monitor:collated")
     if exp != obs:
         ctx.disc(None, "collated_counts", "result", exp, obs, stratum=stratum, case=case)
-    if exp[0] == "value":
-        # per-shot collate_tags keeps values per tag in entry order
-        for s, d in zip(shots, QsysResult(shots).collated_shots()):
-            want: dict = {}
-            for t, v in s:
-                want.setdefault(t, []).append(v)
-            if d != want:
-                ctx.disc(None, "collated_shots", "shot", want, d, stratum=stratum, case=case)
+    if obs[0] == "value":
+        # a key is a tuple of (tag, bitstring) pairs, one per tag of the shot
+        for key in QsysResult(shots).collated_counts():
+            if not (isinstance(key, tuple) and all(isinstance(p, tuple) and len(p) == 2 and isinstance(p[0], str)
+                                                   and isinstance(p[1], str) for p in key)
+                    and len({p[0] for p in key}) == len(key)):
+                ctx.disc(None, "collated_counts-key-shape", "key", "((tag, bits), ...) with distinct tags", repr(key),
+                         stratum=stratum, case=case)
+    # per-shot collate_tags keeps ALL values per tag in entry order (whatever the values are), one dict per shot
+    ctx.count("monitor:collated-shots")
+    got_shots = QsysResult(shots).collated_shots()
+    if len(got_shots) != len(shots):
+        ctx.disc(None, "collated_shots", "number of shots", len(shots), len(got_shots), stratum=stratum, case=case)
+    for s, d in zip(shots, got_shots):
+        want: dict = {}
+        for t, v in s:
+            want.setdefault(t, []).append(v)
+        if d != want or repr(d) != repr(want):      # (repr: True is not 1, 0.5 stays 0.5)
+            ctx.disc(None, "collated_shots", "shot", want, d, stratum=stratum, case=case)
+
+
+def check_empty(ctx):
+    """results without shots, in every spelling of 'no shots'"""
+    from hugr.qsystem.result import QsysResult, QsysShot
+
+    for how, mk in (("QsysResult()", lambda: QsysResult()), ("QsysResult(None)", lambda: QsysResult(None)),
+                    ("QsysResult([])", lambda: QsysResult([])), ("QsysResult(iter(()))", lambda: QsysResult(iter(())))):
+        for sn in (False, True):
+            for sl in (False, True):
+                ctx.count("monitor:zero-shots")
+                case = {"shots": [], "strict_names": sn, "strict_lengths": sl, "how": how}
+                for what, want in (("register_bitstrings", {}), ("register_counts", {})):
+                    got = outcome(lambda: getattr(mk(), what)(strict_names=sn, strict_lengths=sl))
+                    if got != ("value", want):
+                        ctx.disc(None, what + "[zero shots]", how, ("value", want), got, stratum="empty", case=case)
+        if outcome(lambda: mk().collated_counts()) != ("value", Counter()) or outcome(lambda: mk().collated_shots()) != ("value", []):
+            ctx.disc(None, "collated[zero shots]", how, "empty", "not empty / raises", stratum="empty", case={"how": how})
+    # a result of shots that have no entries at all, and shots in every spelling of 'no entries'
+    for mk in (lambda: QsysResult([[], QsysShot(), QsysShot(None), QsysShot([])]),):
+        for sn in (False, True):
+            got = outcome(lambda: mk().register_bitstrings(strict_names=sn, strict_lengths=True))
+            if got != ("value", {}):
+                ctx.disc(None, "register_bitstrings[empty shots]", sn, ("value", {}), got, stratum="empty",
+                         case={"shots": [[], [], [], []], "strict_names": sn})
 
 
 def run(ctx):
+    if ctx.shard == 0:
+        ctx.guard("empty", None, check_empty, ctx)
+        ctx.case("empty", "zero-shots", False)
     for i in ctx.mine(ctx.n(30000, 4000000)):
         r = ctx.rng("shot", i)
         s = gen_shot(r)
@@ -297,7 +389,9 @@ def run(ctx):
 
 def replay(ctx, rec):
     st, case = rec.get("stratum"), rec.get("case")
-    if st == "shot":
+    if st == "empty":
+        check_empty(ctx)
+    elif st == "shot":
         check_shot(ctx, case)
     elif st == "result":
         check_result(ctx, case)
